@@ -10,7 +10,9 @@
 (* program has, what a probe read through the EVM must be the ledger's number, and the        *)
 (* re-computed balances, sequence numbers, code set and fee pool must equal the logged ones   *)
 (* (so a transaction that was not executed changed nothing, and an executed one cost exactly  *)
-(* gas used times price plus the value that moved).                                           *)
+(* gas used times price plus the value that moved).  The EVM is switched on by a fork at a    *)
+(* height fixed in the genesis document (field fork of every block line): no OLVM request     *)
+(* may be accepted in a block below it (ExecutedOnlyFromTheFork).                             *)
 EXTENDS Olvm, Json, SequencesExt
 
 Trace == ndJsonDeserialize("trace.ndjson")
@@ -53,6 +55,7 @@ TraceBlock ==
      IN /\ st' = [bal |-> Ev.s.bal, nonce |-> Ev.s.nonce, kind |-> c.kind, pool |-> Ev.s.pool]
         /\ nviol' = nviol
              + Report("ExecutedOnlyIfAllowed", "execute" \notin f.bad)
+             + Report("ExecutedOnlyFromTheFork", \A i \in 1..Len(Ev.txs) : Ev.txs[i].k = "OLVM" => Ev.h >= Ev.fork)
              + Report("OutcomeAsProgram", "outcome" \notin f.bad)
              + Report("EvmReadsTheLedger", "probe" \notin f.bad)
              + Report("Balances.exact", ~known \/ Eq1(c.bal, Ev.s.bal))
